@@ -52,12 +52,14 @@ def r09_2(ctx):
         if not (tm is not None and tm[0] == 'agg' and tm[1] == 'std::option::Option' and tm[2] == 'v0'):
             ok = False
             why.append('mtime operand is %s, not None' % show(mt))
-        good_at = mentions_app(at, 'filetime::FileTime::now') or \
-            (mentions_app(at, 'filetime::FileTime::from_last_modification_time') and obj_root(h) in values.subs(at))
+        # the re-touch stores atime := the file's own mtime: that sets the read mark (atime >= mtime) whatever the
+        # reader's clock says.  "now" would leave atime < mtime for an entry stamped by a host whose clock is ahead
+        good_at = mentions_app(at, 'filetime::FileTime::from_last_modification_time') and obj_root(h) in values.subs(at) \
+            and not mentions_app(at, 'filetime::FileTime::now')
         if not good_at:
             ok = False
-            why.append('atime operand %s is neither now nor this file\'s own mtime' % show(at, 4)[:100])
-    out.append(inst('R09.2', 'handle re-touch', ok, 'set_file_handle_times(file, Some(mtime of the same file | now), None)' if ok else '; '.join(why)))
+            why.append('atime operand %s is not this file\'s own mtime (with "now" the read mark is lost when the entry\'s mtime is ahead of the reader\'s clock)' % show(at, 4)[:100])
+    out.append(inst('R09.2', 'handle re-touch', ok, 'set_file_handle_times(file, Some(mtime of the same file), None)' if ok else '; '.join(why)))
     k = ctx.helper('raw_cache::touch')
     q = ctx.explore(k)
     E = q.prim_edges({'meta_atime', 'meta_times', 'meta_times_h'})
